@@ -110,16 +110,22 @@ func (p *c12) Run(w *lib.Worker, idx int, r *lib.Rand) lib.Case {
 	if _, err := sut.Schema(st); err != nil {
 		return lib.Case{Tags: []string{"schema-does-not-decode"}}
 	}
-	c := lib.Case{Hash: lib.Hash64(append(append([]byte{}, st...), it...)), Evals: 3}
+	c := lib.Case{Hash: lib.Hash64(append(append([]byte{}, st...), it...)), Evals: 6}
 	c.Nontrivial = hasContainer(inst) && g.Features["default"]
-	for mode, name := range []string{"AgainstSchema", "NewSchemaValidator", "NewSchemaValidator+recycle"} {
+	// every entry point twice: the instance as encoding/json decodes it by default (numbers as float64) and as a
+	// decoder with UseNumber hands it over (json.Number leaves inside the caller's containers)
+	for mode, name := range []string{"AgainstSchema", "NewSchemaValidator", "NewSchemaValidator+recycle", "AgainstSchema/json.Number", "NewSchemaValidator/json.Number", "NewSchemaValidator+recycle/json.Number"} {
 		live, _ := sut.Schema(st)
 		snapSchema, _ := sut.Schema(st)
 		liveVal, _ := sut.Value(it)
 		snapVal, _ := sut.Value(it)
+		if mode >= 3 {
+			liveVal, _ = decodeNumber(it)
+			snapVal, _ = decodeNumber(it)
+		}
 		schemaBefore, valBefore := jsonText(live), jsonText(liveVal)
 		o := sut.Guard(func() sut.Outcome {
-			switch mode {
+			switch mode % 3 {
 			case 0:
 				return sut.FromError(validate.AgainstSchema(live, liveVal, strfmt.Default))
 			case 1:
